@@ -192,4 +192,31 @@ PROPS['C09'] = {
     'level_note': 'A-REAL axioms for exp/log/pow; minimize assumed to respect its bounds; recovery clause bounded only.',
 }
 
+_EXCEL_NOTE = ('Bounded in the table layout (one instrument configuration: FSC-H, SSC-H, FL1..FL3 with Units columns for FL1, FL2); '
+               'library steps uninterpreted with the exception classes of their own contracts; plot=False, verbose=False; '
+               'process_beads_table, add_*_stats and generate_histograms_table are covered by the bounded stand-in only.')
+PROPS['C10'] = {
+    'contracts': ['contracts.excel:ProcessSamples'],
+    'bounded': True,
+    'level': 'other',
+    'explanation': 'Proved for an arbitrary row of a Samples table with any number of rows (loop cut, arbitrary prior state) and symbolic '
+                   'cell contents: the sample stored for a healthy row is exactly the term density2d(high_low?(start_end(U2(U1(to_rfi(load, '
+                   '[FSC,SSC]))), 250, 100), [FSC,SSC]+reported), [FSC,SSC], fraction) with U = identity for channel, to_rfi for rfi/a.u./au, '
+                   'bead transform after to_rfi for mef (case-insensitive, stripped), channels without units skipped, high_low iff integer '
+                   'data, reported channels in instrument order. ' + _EXCEL_NOTE,
+    'level_note': _EXCEL_NOTE,
+}
+PROPS['C11'] = {
+    'contracts': ['contracts.excel:ProcessSamples'],
+    'bounded': True,
+    'level': 'other',
+    'explanation': 'Proved for an arbitrary row (loop cut): no exception escapes the batch whatever the row contains; the row ends as an '
+                   'ExcelUIException exactly when one of the documented faults holds (file not found, fewer than 400 events, unrecognised '
+                   'units, calibration missing for the beads or the channel, beads on another instrument / other amplifier type / other '
+                   'detector voltage, gate fraction outside [0,1]) and as the documented sample otherwise; the entry is stored under the '
+                   'row identifier; what is stored depends only on the row, the instrument/beads tables and the bead transforms (the prior '
+                   'state is arbitrary); an empty table gives an empty result. ' + _EXCEL_NOTE,
+    'level_note': _EXCEL_NOTE,
+}
+
 NOT_APPLICABLE = {}
